@@ -517,7 +517,12 @@ def _o_batch_one_tampered(w):
 def _o_batch_at_most_one_coeff(w):
     """toy curves: with one bad member j, enumerate every coefficient a_j (others fixed): a bad first member
     never passes, a bad later member passes for at most one a_j."""
-    ec, hf, items = _mk_batch(w)
+    try:
+        ec, hf, items = _mk_batch(w)
+    except Exception as e:  # noqa: BLE001
+        # on a toy curve one challenge in n is zero and challenge_ refuses it (RuntimeError): no batch to speak of
+        small = _ec(w["curve"]).n < 2 ** 32
+        return small and _cls(e) == "runtime", f"signing a member refused: {type(e).__name__}: {e}"
     j = w["pos"]
     items[j] = _tamper(items[j], w["how"], ec)
     if ssa.verify_(items[j][0], items[j][1], _sig(items[j][2], items[j][3], ec), hf):
@@ -1071,10 +1076,11 @@ def _run(ctx, rng, thorough):  # noqa: C901, PLR0912, PLR0915
                 coefs = [rng.randrange(1, ec.n) for _ in range(size - 1)]
                 w = {"curve": tok, "hf": "sha256", "members": members, "pos": pos, "how": how, "coefs": coefs}
                 try:
-                    ctx.check("batch.at_most_one_coeff", w)
                     ec_, hf_, items = _mk_batch(w)
                 except Exception:  # noqa: BLE001 - signing refused (zero challenge): not a batch
+                    ctx.count("ssa.batch.toy#shape", "skipped: zero challenge while signing")
                     continue
+                ctx.check("batch.at_most_one_coeff", w)
                 items[pos] = _tamper(items[pos], how, ec_)
                 for a in range(1, ec.n):
                     cs = list(coefs)
